@@ -148,6 +148,8 @@ func Run(f cli.Family, rng *rand.Rand, o Opts) *History {
 	var matches []MatchEv
 	var calls []*CallRec
 	release := make(chan struct{})
+	heldSig := make(chan struct{}, 1)
+	holdRelease := make(chan struct{})
 	var wg sync.WaitGroup
 	closedFlag := atomic.Bool{}
 	dest := &net.UDPAddr{IP: net.IPv4bcast, Port: 67}
@@ -169,6 +171,16 @@ func Run(f cli.Family, rng *rand.Rand, o Opts) *History {
 			m = func(rp cli.Resp) bool { v := !rp.Nil && rp.Type == f.AcceptType(); logMatch(rp, v); return v }
 		case "reject":
 			m = func(rp cli.Resp) bool { logMatch(rp, false); return false }
+		case "hold":
+			m = func(rp cli.Resp) bool {
+				select {
+				case heldSig <- struct{}{}:
+				default:
+				}
+				<-holdRelease // the call stays registered for as long as its matcher is running
+				logMatch(rp, false)
+				return false
+			}
 		case "block":
 			m = func(rp cli.Resp) bool {
 				select {
@@ -278,40 +290,68 @@ func Run(f cli.Family, rng *rand.Rand, o Opts) *History {
 	}
 	hr := rand.New(rand.NewPCG(rng.Uint64(), 99)) // the holder goroutine's own generator
 	closeAfter := time.Duration(rng.IntN(int(2*o.T))) / 2
-	// holder scenario: H keeps a transaction id of its own pending; J, started after H's transmission was seen and finished before H is cancelled, must be refused
+	// holder scenario: H's matcher is held blocked by the harness, so H demonstrably stays registered; a call J with
+	// the same transaction id that starts after the matcher was entered and ends before it is released must be refused
 	wg.Add(1)
 	go func() {
 		defer wg.Done()
-		hx := uint32(1000 + hr.IntN(5)) // outside the feeder's pool: nothing can complete H early
+		hx := uint32(1000 + hr.IntN(5)) // outside the feeder's pool
 		ctx, cancel := context.WithCancel(context.Background())
 		hdone := make(chan *CallRec, 1)
-		hid := int(callID.Load()) // not exact; resolved below
-		_ = hid
-		go func() { hdone <- doCall(nil, hx, "reject", true, 0, ctx, cancel) }()
-		// wait until H's transmission is on the wire (it is registered before it transmits)
-		var hrec *CallRec
-		deadline := time.Now().Add(2 * time.Second)
-		for time.Now().Before(deadline) {
+		go func() { hdone <- doCall(nil, hx, "hold", true, 0, ctx, cancel) }()
+		// a datagram for H: its matcher blocks on it
+		hn := 1 << 20
+		mu.Lock()
+		h.Dgrams[hn] = &Dgram{Nonce: hn, Class: "matching", Xid: hx, Type: f.OtherType()}
+		mu.Unlock()
+		injected := make(chan bool, 2)
+		go func() {
+			// wait until H has transmitted (it registers before transmitting), then inject
+			for dl := time.Now().Add(time.Second); time.Now().Before(dl) && !closedFlag.Load(); {
+				mu.Lock()
+				ok := false
+				for _, cc := range calls {
+					if cc.Held && len(txByCall[cc.ID]) > 0 {
+						ok = true
+					}
+				}
+				mu.Unlock()
+				if ok {
+					break
+				}
+				time.Sleep(50 * time.Microsecond)
+			}
+			injected <- conn.Inject(sconn.Datagram{B: f.Datagram("matching", hx, hn, f.OtherType()), From: dest, Nonce: hn, Class: "matching"})
+		}()
+		select {
+		case <-heldSig:
+			var hrec *CallRec
 			mu.Lock()
 			for _, cc := range calls {
-				if cc.Held && len(txByCall[cc.ID]) > 0 {
+				if cc.Held {
 					hrec = cc
 				}
 			}
 			mu.Unlock()
-			if hrec != nil {
-				break
+			if hrec != nil && !closedFlag.Load() {
+				c2, cc2 := context.WithCancel(context.Background())
+				doCall(nil, hx, "nil", false, hrec.ID, c2, cc2)
+				cc2()
 			}
-			runtime.Gosched()
+		case ok := <-injected:
+			injected <- ok
+			if ok { // delivered, but H never reached its matcher (it ended first): nothing to check
+				select {
+				case <-heldSig:
+				case <-time.After(20 * time.Millisecond):
+				}
+			}
+		case <-time.After(2 * time.Second):
 		}
-		if hrec != nil && !closedFlag.Load() {
-			c2, cc2 := context.WithCancel(context.Background())
-			j := doCall(nil, hx, "nil", false, hrec.ID, c2, cc2)
-			cc2()
-			_ = j
-		}
+		close(holdRelease)
 		cancel()
 		<-hdone
+		<-injected
 	}()
 
 	if o.CloseMid {
@@ -322,10 +362,15 @@ func Run(f cli.Family, rng *rand.Rand, o Opts) *History {
 	closedFlag.Store(true)
 	h.CloseSeq = sconn.NextSeq()
 	closeDone := make(chan struct{})
+	var closeErr, close2Err error
+	var closeRetSeq int64
 	go func() {
-		h.CloseErr = c.Close()
-		h.CloseRetSeq = sconn.NextSeq()
-		h.Close2Err = c.Close()
+		e1 := c.Close()
+		sq := sconn.NextSeq()
+		e2 := c.Close()
+		mu.Lock()
+		closeErr, closeRetSeq, close2Err = e1, sq, e2
+		mu.Unlock()
 		close(closeDone)
 	}()
 	close(stopFeed)
@@ -353,6 +398,7 @@ func Run(f cli.Family, rng *rand.Rand, o Opts) *History {
 	// assemble
 	mu.Lock()
 	defer mu.Unlock()
+	h.CloseErr, h.CloseRetSeq, h.Close2Err = closeErr, closeRetSeq, close2Err
 	for _, cc := range calls {
 		cc.TxSeqs = txByCall[cc.ID]
 	}
@@ -450,3 +496,63 @@ func libGoroutines(funcs ...string) []string {
 }
 
 func (h *History) String() string { return fmt.Sprintf("%s: %d calls, %d datagrams, %d events", h.Fam, len(h.Calls), len(h.Dgrams), h.Events) }
+
+// Herd: G callers released by a barrier call SendAndRead with the SAME transaction id at once; the scripted conn parks
+// every admitted caller inside WriteTo (so admitted callers stay registered).  At most one of them may be admitted:
+// the others must be refused.  Returns the number of rounds in which more than one caller was admitted, and the
+// maximum number admitted in one round.
+func Herd(f cli.Family, rounds, g int) (bad int, maxAdmitted int, detail string) {
+	dest := &net.UDPAddr{IP: net.IPv4bcast, Port: 67}
+	for r := 0; r < rounds; r++ {
+		conn := sconn.New(0)
+		release := make(chan struct{})
+		var parked atomic.Int64
+		conn.OnWrite = func(w sconn.Write) {
+			parked.Add(1)
+			<-release
+		}
+		c, err := f.New(conn, 50*time.Millisecond, 1)
+		if err != nil {
+			panic(err)
+		}
+		start := make(chan struct{})
+		var returned atomic.Int64
+		var refused atomic.Int64
+		var wg sync.WaitGroup
+		ctx, cancel := context.WithCancel(context.Background())
+		for i := 0; i < g; i++ {
+			wg.Add(1)
+			req := f.Request(uint32(77), 0)
+			go func() {
+				defer wg.Done()
+				<-start
+				_, _, err := c.SendAndRead(ctx, dest, req, nil)
+				if f.IsInUse(err) {
+					refused.Add(1)
+				}
+				returned.Add(1)
+			}()
+		}
+		close(start)
+		// settle: every caller is either parked in WriteTo or has returned
+		for dl := time.Now().Add(5 * time.Second); time.Now().Before(dl); {
+			if parked.Load()+returned.Load() >= int64(g) {
+				break
+			}
+			runtime.Gosched()
+		}
+		adm := int(parked.Load())
+		if adm > maxAdmitted {
+			maxAdmitted = adm
+		}
+		if adm > 1 {
+			bad++
+			detail = fmt.Sprintf("round %d: %d of %d concurrent calls with the same transaction id were admitted (transmitting at once), %d refused", r, adm, g, refused.Load())
+		}
+		cancel()
+		close(release)
+		wg.Wait()
+		c.Close()
+	}
+	return
+}
